@@ -177,6 +177,8 @@ def run(tier, seed, replay=None):
             what = 'crash %s %s (guard-page fault / abort)' % (rec['kind'], rec['code'])
         elif ev == 'free':
             what = 'deallocator %s applied to a block from %s (or block not live)' % (rec.get('kind'), rec.get('akind'))
+        elif ev == 'badfree':
+            what = '%s of something that is not the start of a live block (%s; block %s)' % (rec.get('kind'), rec.get('why'), rec.get('id'))
         elif ev == 'end':
             what = 'at scenario end: live=%s flag_ok=%s or output differs between heap fill patterns' % (rec.get('live'), rec.get('flag_ok'))
         elif ev == 'xbuild':
@@ -186,7 +188,7 @@ def run(tier, seed, replay=None):
         else:
             what = 'event %s not an enabled heap step' % ev
         kind = case.split()[0] if case != '?' else '?'
-        cls = (ev, kind, what if ev in ('free', 'fault') else '')
+        cls = (ev, kind, what if ev in ('free', 'fault') else rec.get('why', ''))
         if cls in seen or len(ck.violations) >= 10:
             continue
         seen.add(cls)
